@@ -1,8 +1,8 @@
 (* C02 — literal values parse to exactly what Python evaluates them to.
-   Statements only; proofs in Proofs/ParserSmall.v, ParserLemmas.v, ParserProofs.v. *)
+   Statements only; proofs in Proofs/ParserSmall.v, ParserLemmas.v, ParserProofs.v, ParserSound.v, ParserApi.v. *)
 From Coq Require Import List String ZArith Bool Arith.
 From GinV Require Import Lib.Out Lib.PyStr Model.Parser Model.ParserSpec
-                         Proofs.ParserSmall Proofs.ParserLemmas Proofs.ParserProofs Proofs.ParserSound.
+                         Proofs.ParserSmall Proofs.ParserLemmas Proofs.ParserProofs Proofs.ParserSound Proofs.ParserApi.
 Import ListNotations.
 Open Scope string_scope.
 Open Scope list_scope.
@@ -109,6 +109,154 @@ Example C02_repaired_minus_rejected :
   parse_value (value_fuel C02_minus_ref_stream) [] false C02_minus_ref_stream = PErr (ESyntax 1).
 Proof. vm_compute. reflexivity. Qed.
 
+
+(* ---- the API: gin.config.parse_value / ConfigParser.parse_single_value (repaired defect F39) ----
+   [parse_single_value] runs the value parser, skips tokens of the [end_types] (NEWLINE, NL, COMMENT, INDENT,
+   DEDENT) and demands the end marker; [parse_single_value_orig] is the code before the repair. *)
+
+(* acceptance at the API is: one value, then only tokens of the end types, then the end marker *)
+Theorem C02_api_is_value_then_only_trivia : forall o ts v,
+  parse_single_value o ts = POk v ->
+  exists rest rest',
+    parse_value (value_fuel ts) o false ts = POk (v, rest) /\
+    skip (S (List.length rest)) end_types rest = POk rest' /\ ty (cur rest') = ENDMARKER.
+Proof. exact api_is_value_then_only_trivia. Qed.
+(* ... and exactly that *)
+Theorem C02_api_accepts_iff : forall o ts v,
+  parse_single_value o ts = POk v <->
+  exists rest rest',
+    parse_value (value_fuel ts) o false ts = POk (v, rest) /\
+    skip (S (List.length rest)) end_types rest = POk rest' /\ ty (cur rest') = ENDMARKER.
+Proof. exact api_accepts_iff. Qed.
+(* ... so the stream really holds an ENDMARKER token, and between the value and it only tokens of the end types
+   (and the blank ERRORTOKENs that _advance_one_token drops) *)
+Theorem C02_api_accept_shape : forall o ts v,
+  parse_single_value o ts = POk v ->
+  exists rest skipped e more,
+    parse_value (value_fuel ts) o false ts = POk (v, rest) /\
+    rest = skipped ++ e :: more /\
+    Forall (fun t => In (ty t) end_types \/ blank_err t) skipped /\ ty e = ENDMARKER.
+Proof. exact api_accept_shape. Qed.
+
+(* anything else behind the value is the SyntaxError at that token: never a value *)
+Theorem C02_api_rejects_trailing_junk : forall o ts v rest rest',
+  parse_value (value_fuel ts) o false ts = POk (v, rest) ->
+  skip (S (List.length rest)) end_types rest = POk rest' -> ty (cur rest') <> ENDMARKER ->
+  parse_single_value o ts = PErr (ESyntax (srow (cur rest'))).
+Proof. exact api_rejects_trailing_junk. Qed.
+(* the first token behind the value that is not of an end type decides *)
+Theorem C02_api_rejects_first_junk : forall o ts v tl t r,
+  parse_value (value_fuel ts) o false ts = POk (v, tl ++ t :: r) ->
+  Forall (fun x => In (ty x) end_types) tl ->
+  ~ In (ty t) end_types -> ty t <> ENDMARKER -> ty t <> TERR -> ty t <> ERRORTOKEN ->
+  parse_single_value o ts = PErr (ESyntax (srow t)).
+Proof. exact api_rejects_first_junk. Qed.
+(* user level: a NAME / NUMBER / STRING / OP token right behind the value ("1 + 2", "1 2", "[1] x") *)
+Theorem C02_api_rejects_junk_token : forall o ts v t r,
+  parse_value (value_fuel ts) o false ts = POk (v, t :: r) ->
+  (ty t = NAME \/ ty t = NUMBER \/ ty t = STRING \/ ty t = OP) ->
+  parse_single_value o ts = PErr (ESyntax (srow t)).
+Proof. exact api_rejects_junk_token. Qed.
+
+(* completeness and exactness at the API: every literal tree in every layout, followed by comments / NLs [tr], then
+   nothing or a NEWLINE and any tokens of the end types [tl], then the end marker, yields exactly Python's value.
+   ([tl] may not START with INDENT / DEDENT: C02_complete wants a follow token behind the trivia; the tokenizer
+   never emits INDENT / DEDENT before the NEWLINE that ends the value's logical line.) *)
+Theorem C02_api_never_another_value : forall o l lay n inside v toks n' tr tl e more,
+  lay_ok lay -> lit_wf o l -> py_eval o l = Some v -> render l lay n inside = (toks, n') ->
+  Forall tok_ok toks ->
+  Forall trivia_tok tr ->
+  Forall (fun t => In (ty t) end_types) tl -> (forall t r, tl = t :: r -> ty t = NEWLINE) ->
+  ty e = ENDMARKER ->
+  parse_single_value o (toks ++ tr ++ tl ++ e :: more) = POk v.
+Proof. exact api_never_another_value. Qed.
+Theorem C02_api_never_another_value_eof : forall o l lay n v toks n' tl,
+  lay_ok lay -> lit_wf o l -> py_eval o l = Some v -> render l lay n false = (toks, n') ->
+  Forall tok_ok toks ->
+  Forall (fun t => In (ty t) end_types) tl -> (forall t r, tl = t :: r -> ty t = NEWLINE) ->
+  parse_single_value o (toks ++ tl ++ [eof_token]) = POk v.
+Proof. exact api_never_another_value_eof. Qed.
+
+(* soundness at the API: an accepted stream without reference / macro sigils IS a rendering of a well-formed literal
+   tree whose Python value is the value returned, then tokens of the end types, then the end marker *)
+Theorem C02_api_sound : forall o ts v,
+  parse_single_value o ts = POk v -> Forall (lit_tok o) ts ->
+  exists l lay n' toks used skipped e more,
+    lit_wf o l /\ py_eval o l = Some v /\
+    ts = used ++ skipped ++ e :: more /\
+    render l lay 0 true = (toks, n') /\ Forall2 tok_sim toks used /\
+    (forall k, Forall (skippable false) (lay k)) /\
+    Forall (fun t => In (ty t) end_types \/ blank_err t) skipped /\ ty e = ENDMARKER.
+Proof. exact api_sound. Qed.
+(* the same with the parser's own skip *)
+Theorem C02_api_sound_skip : forall o ts v,
+  parse_single_value o ts = POk v -> Forall (lit_tok o) ts ->
+  exists l lay n' toks used rest rest',
+    lit_wf o l /\ py_eval o l = Some v /\ ts = used ++ rest /\
+    render l lay 0 true = (toks, n') /\ Forall2 tok_sim toks used /\
+    (forall k, Forall (skippable false) (lay k)) /\
+    skip (S (List.length rest)) end_types rest = POk rest' /\ ty (cur rest') = ENDMARKER.
+Proof. exact api_sound_skip. Qed.
+(* exact form, for streams as the real tokenizer produces them *)
+Theorem C02_api_sound_exact : forall o ts v,
+  parse_single_value o ts = POk v ->
+  Forall (lit_tok o) ts -> Forall (plain_tok false) ts -> Forall canon_punct ts ->
+  exists l lay toks n' skipped e more,
+    lay_ok lay /\ lit_wf o l /\ py_eval o l = Some v /\ render l lay 0 true = (toks, n') /\
+    ts = toks ++ skipped ++ e :: more /\
+    Forall (fun t => ty t = NEWLINE \/ ty t = NL \/ ty t = COMMENT) skipped /\ ty e = ENDMARKER.
+Proof. exact api_sound_exact. Qed.
+
+(* Refutation of the code before the repair: the token stream of the text "1 + 2" was accepted as the value 1;
+   the repaired code raises the SyntaxError (line 1). *)
+Definition C02_junk_stream : list token :=
+  [ {| ty := NUMBER; text := "1"; srow := 1; scol := 0; erow := 1; ecol := 1 |};
+    {| ty := OP; text := "+"; srow := 1; scol := 2; erow := 1; ecol := 3 |};
+    {| ty := NUMBER; text := "2"; srow := 1; scol := 4; erow := 1; ecol := 5 |};
+    {| ty := NEWLINE; text := ""; srow := 1; scol := 5; erow := 1; ecol := 6 |};
+    {| ty := ENDMARKER; text := ""; srow := 2; scol := 0; erow := 2; ecol := 0 |} ].
+Definition C02_int_oracle : oracle :=
+  [("1", Some (OT "int" [OS "1"])); ("-1", Some (OT "int" [OS "-1"]));
+   ("2", Some (OT "int" [OS "2"])); ("-2", Some (OT "int" [OS "-2"]))].
+Example C02_api_orig_accepts_junk :
+  parse_single_value_orig C02_int_oracle C02_junk_stream = POk (OT "int" [OS "1"]) /\
+  parse_single_value C02_int_oracle C02_junk_stream = PErr (ESyntax 1).
+Proof. vm_compute. split; reflexivity. Qed.
+
+(* Non-vacuity of C02_api_never_another_value: the stream of "[1,\n 2]  # c\n\n" -- a list over two lines, a comment,
+   the NEWLINE, a blank line's NL, the end marker.  It is the rendering of a tree followed by such a tail (first
+   example, proved BY the theorem from its hypotheses), and evaluates to the list (second, by computation). *)
+Definition C02_api_stream : list token :=
+  [ {| ty := OP; text := "["; srow := 1; scol := 0; erow := 1; ecol := 0 |};
+    {| ty := NUMBER; text := "1"; srow := 1; scol := 1; erow := 1; ecol := 2 |};
+    {| ty := OP; text := ","; srow := 1; scol := 0; erow := 1; ecol := 0 |};
+    {| ty := NL; text := ""; srow := 1; scol := 3; erow := 1; ecol := 4 |};
+    {| ty := NUMBER; text := "2"; srow := 2; scol := 1; erow := 2; ecol := 2 |};
+    {| ty := OP; text := "]"; srow := 1; scol := 0; erow := 1; ecol := 0 |};
+    {| ty := COMMENT; text := "# c"; srow := 2; scol := 5; erow := 2; ecol := 8 |};
+    {| ty := NEWLINE; text := ""; srow := 2; scol := 8; erow := 2; ecol := 9 |};
+    {| ty := NL; text := ""; srow := 3; scol := 0; erow := 3; ecol := 1 |};
+    {| ty := ENDMARKER; text := ""; srow := 4; scol := 0; erow := 4; ecol := 0 |} ].
+Example C02_api_stream_is_rendering :
+  C02_api_stream = fst (render C02_ApiExample.ex_lit C02_ApiExample.ex_lay 0 false)
+                   ++ C02_ApiExample.ex_tr ++ C02_ApiExample.ex_tl ++ [C02_ApiExample.ex_end].
+Proof. vm_compute. reflexivity. Qed.
+Example C02_api_complete_applies :
+  parse_single_value C02_int_oracle
+    (fst (render C02_ApiExample.ex_lit C02_ApiExample.ex_lay 0 false)
+     ++ C02_ApiExample.ex_tr ++ C02_ApiExample.ex_tl ++ [C02_ApiExample.ex_end])
+  = POk (OT "L" [OT "int" [OS "1"]; OT "int" [OS "2"]]).
+Proof. exact C02_ApiExample.ex_complete_applies. Qed.
+Example C02_api_complete_computes :
+  parse_single_value C02_int_oracle C02_api_stream = POk (OT "L" [OT "int" [OS "1"]; OT "int" [OS "2"]]).
+Proof. vm_compute. reflexivity. Qed.
+(* the same stream with a second value behind the first is refused *)
+Example C02_api_second_value_refused :
+  parse_single_value C02_int_oracle
+    (firstn 6 C02_api_stream ++ {| ty := NUMBER; text := "2"; srow := 2; scol := 4; erow := 2; ecol := 5 |}
+     :: skipn 6 C02_api_stream) = PErr (ESyntax 2).
+Proof. vm_compute. reflexivity. Qed.
+
 Print Assumptions C02_complete.
 Print Assumptions C02_complete_value_fuel.
 Print Assumptions C02_paren_is_value.
@@ -122,3 +270,19 @@ Print Assumptions C02_minus_value_is_basic.
 Print Assumptions C02_value_first_token.
 Print Assumptions C02_orig_minus_dropped.
 Print Assumptions C02_repaired_minus_rejected.
+Print Assumptions C02_api_is_value_then_only_trivia.
+Print Assumptions C02_api_accepts_iff.
+Print Assumptions C02_api_accept_shape.
+Print Assumptions C02_api_rejects_trailing_junk.
+Print Assumptions C02_api_rejects_first_junk.
+Print Assumptions C02_api_rejects_junk_token.
+Print Assumptions C02_api_never_another_value.
+Print Assumptions C02_api_never_another_value_eof.
+Print Assumptions C02_api_sound.
+Print Assumptions C02_api_sound_skip.
+Print Assumptions C02_api_sound_exact.
+Print Assumptions C02_api_orig_accepts_junk.
+Print Assumptions C02_api_stream_is_rendering.
+Print Assumptions C02_api_complete_applies.
+Print Assumptions C02_api_complete_computes.
+Print Assumptions C02_api_second_value_refused.
